@@ -46,7 +46,7 @@ type Chain struct {
 	Supps  []consensus.V1BlockSupplement
 	Kinds  [][]string
 
-	Files   map[types.Hash256][]byte         // contract data by Merkle root
+	Files   map[types.Hash256][]byte          // contract data by Merkle root
 	V1Infos map[types.Address]*V1ContractInfo // by contract unlock hash
 
 	DevOld, DevNew *Lock
@@ -54,11 +54,11 @@ type Chain struct {
 	// OnAccepted is called after ValidateBlock accepted a block and before it is
 	// applied (the store is still at the parent state): the place to try variants.
 	OnAccepted func(cs consensus.State, b types.Block, bs consensus.V1BlockSupplement, kinds []string)
-	OnApply  func(ApplyEvent)
-	OnRevert func(RevertEvent)
+	OnApply    func(ApplyEvent)
+	OnRevert   func(RevertEvent)
 	// OnStoreApplied is called after the store has processed the apply (for
 	// checks that inspect the store against the new state).
-	OnStoreApplied func(ApplyEvent)
+	OnStoreApplied  func(ApplyEvent)
 	OnStoreReverted func(RevertEvent)
 
 	Stats map[string]int
@@ -66,8 +66,8 @@ type Chain struct {
 	// ephemeral-output fix height (their claimed ClaimStart is not checked by
 	// consensus in that window; C01 excludes it by its quantifier).
 	NoLegacyEphemeralSF bool
-	GenesisEvent ApplyEvent
-	LastReject *Rejected
+	GenesisEvent        ApplyEvent
+	LastReject          *Rejected
 
 	GenesisSC types.Currency // total siacoins allocated at genesis
 	V2Reach   bool           // whether the network can reach v2 heights in a run
